@@ -185,14 +185,30 @@ pub(crate) fn calculate_max_input(output_len: usize) -> usize {
     chunks * DEFAULT_CHUNK_SIZE + tail
 }
 
+/// Overhead for a chunk of the given length: `<length in hex>\r\n<chunk>\r\n`
+fn chunk_overhead(chunk_len: usize) -> usize {
+    let mut digits = 1;
+    let mut n = chunk_len >> 4;
+    while n > 0 {
+        digits += 1;
+        n >>= 4;
+    }
+    digits + 4
+}
+
 fn write_chunk(input: &[u8], input_used: &mut usize, w: &mut Writer, max_chunk: usize) -> bool {
     // TODO(martin): Redo this to  try and calculate a perfect fit of the
     // input into the output.
 
-    // 5 is the smallest possible overhead
-    let available = w.available().saturating_sub(5);
+    let available = w.available();
 
-    let to_write = input.len().min(max_chunk).min(available);
+    // 5 is the smallest possible overhead
+    let mut to_write = input.len().min(max_chunk).min(available.saturating_sub(5));
+
+    // Longer chunks need more than one hex digit for the chunk length.
+    while to_write > 0 && to_write + chunk_overhead(to_write) > available {
+        to_write -= 1;
+    }
 
     // A zero sized chunk is the end of the body. It must never be the
     // result of running out of output space.
